@@ -23,7 +23,7 @@ def run(ctx, rep):
     M = c09.OpenModel(ctx)
     g, P = M.g, M.P
     fsm = set(P.calls(MUTATE_FS)) | {n for n in P.calls(r"fs::OpenOptions::open$")
-                                     if contains(event_args(g, n)[0], lambda x: call_is(x, r"OpenOptions::(create|create_new|truncate)$"))
+                                     if creates_file(g, n, ("create", "create_new", "truncate"))
                                      and n[0] != 1}
     # lock-file open belongs to the lock constructor (before any chunk is read): exclude by requiring a pending error anyway
 
